@@ -16,6 +16,7 @@ import Golib.Proof.C18CliquesTop
 import Golib.Proof.C18SolvOrd
 import Golib.Proof.C18Permute
 import Golib.Proof.C18Compose
+import Golib.Proof.C18Driver
 
 namespace Golib.C18
 
@@ -256,6 +257,17 @@ theorem c18_cliques_exact {V : Type} (nb : V → V → Bool) (irrefl : ∀ v, nb
       (∀ C, MaxClique nb P C → ∃ o ∈ out, SameSet o C) ∧
       out.Pairwise (fun a b => ¬ SameSet a b) :=
   maximalCliques_spec nb irrefl symm P hP
+
+/-- The adjacency relation the executable driver hands to the model (per-vertex lists, so that
+graphs on a hundred vertices run fast) is exactly "the arc `(v, u)` was parsed", for every
+vertex `v < n` — so the large-graph runs compared with the Go code are instances of the
+theorems above. -/
+theorem c18_driver_adjacency (n : Nat) (edges : List (Nat × Nat)) (v u : Nat) (hv : v < n) :
+    ((adjLists n edges).getD v []).contains u = edges.contains (v, u) :=
+  adjLists_contains n edges v u hv
+
+example : ((adjLists 3 [(0, 1), (1, 0), (1, 2), (2, 1)]).getD 1 []).contains 2 = true ∧
+    ((adjLists 3 [(0, 1), (1, 0), (1, 2), (2, 1)]).getD 0 []).contains 2 = false := by decide
 
 /-- Non-vacuity: triangle 0-1-2 with pendant 3 at 2, two vertex orders. -/
 example : maximalCliques (fun a b : Nat => (a, b) ∈ [(0, 1), (1, 0), (1, 2), (2, 1), (0, 2), (2, 0), (2, 3), (3, 2)])
